@@ -147,6 +147,8 @@ def GEOMEAN(*args):
 def AVERAGEIFS(average_range, *criteria):
     if len(criteria) % 2 != 0:
         return error.ERROR
+    if not isinstance(average_range, (list, tuple)):
+        return error.VALUE  # not an array: never walk an arbitrary (possibly never-ending) iterable
     range_and_preds = list(zip(criteria[::2], (utils.parse_criteria(criterion) for criterion in criteria[1::2])))
     sum_value = 0
     count_value = 0
@@ -163,6 +165,8 @@ def AVERAGEIFS(average_range, *criteria):
 def MAXIFS(sum_args, *criteria):
     if len(criteria) % 2 != 0:
         return error.ERROR
+    if not isinstance(sum_args, (list, tuple)):
+        return error.VALUE  # not an array: never walk an arbitrary (possibly never-ending) iterable
     range_and_preds = list(zip(criteria[::2], (utils.parse_criteria(criterion) for criterion in criteria[1::2])))
     b = None
     for i, a in enumerate(sum_args):
